@@ -43,10 +43,12 @@ func (r *StringLiteralReader) ReadStringLiteral() (models.Token, error) {
 		if ch == '\\' {
 			// Handle escape sequences
 			if err := r.handleEscapeSequence(&buf); err != nil {
-				return models.Token{}, errors.InvalidSyntaxError(
+				return models.Token{}, errors.WrapError(
+					errors.ErrCodeUnexpectedChar,
 					fmt.Sprintf("invalid escape sequence: %v", err),
 					models.Location{Line: r.pos.Line, Column: r.pos.Column},
 					string(r.input),
+					err,
 				)
 			}
 			continue
@@ -100,7 +102,7 @@ func (r *StringLiteralReader) handleEscapeSequence(buf *bytes.Buffer) error {
 	r.pos.Column++
 
 	if r.pos.Index >= len(r.input) {
-		return fmt.Errorf("unexpected end of input after escape character")
+		return errors.UnterminatedStringError(models.Location{Line: r.pos.Line, Column: r.pos.Column}, string(r.input))
 	}
 
 	ch := r.input[r.pos.Index]
@@ -123,7 +125,7 @@ func (r *StringLiteralReader) handleEscapeSequence(buf *bytes.Buffer) error {
 	case 'u':
 		return r.handleUnicodeEscape(buf)
 	default:
-		return fmt.Errorf("invalid escape sequence '\\%c'", ch)
+		return errors.NewError(errors.ErrCodeUnexpectedChar, fmt.Sprintf("invalid escape sequence '\\%c'", ch), models.Location{Line: r.pos.Line, Column: r.pos.Column})
 	}
 
 	return nil
@@ -132,7 +134,7 @@ func (r *StringLiteralReader) handleEscapeSequence(buf *bytes.Buffer) error {
 // handleUnicodeEscape handles \uXXXX Unicode escape sequences
 func (r *StringLiteralReader) handleUnicodeEscape(buf *bytes.Buffer) error {
 	if r.pos.Index+4 > len(r.input) {
-		return fmt.Errorf("incomplete Unicode escape sequence")
+		return errors.NewError(errors.ErrCodeUnexpectedChar, "incomplete Unicode escape sequence", models.Location{Line: r.pos.Line, Column: r.pos.Column})
 	}
 
 	var value rune
@@ -147,7 +149,7 @@ func (r *StringLiteralReader) handleUnicodeEscape(buf *bytes.Buffer) error {
 		case ch >= 'A' && ch <= 'F':
 			digit = rune(ch-'A') + 10
 		default:
-			return fmt.Errorf("invalid Unicode escape sequence")
+			return errors.NewError(errors.ErrCodeUnexpectedChar, "invalid Unicode escape sequence", models.Location{Line: r.pos.Line, Column: r.pos.Column})
 		}
 		value = value*16 + digit
 	}
